@@ -585,3 +585,15 @@ Proof.
 Qed.
 
 End TanMulti.
+
+(* a chunk-shaped tail with a wrong checksum ends replay with VCrc, which open() does not
+   treat as a torn tail *)
+Definition w_ck (b : bytes) : N := (7 + nlen b) mod 2 ^ 32.
+Lemma tan_garbage_tail_recoverable_refuted_proved :
+  exists ck lognum rs g, (forall b, ck b < 2 ^ 32) /\
+    replay ck lognum (frame ck rs ++ g) = (rs, VCrc) /\ recoverable VCrc = false.
+Proof.
+  exists w_ck, 0, [[1; 2; 3]], [0; 0; 0; 0; 1; 0; 1; 5]. split.
+  - intros b. unfold w_ck. apply N.mod_lt. discriminate.
+  - split; vm_compute; reflexivity.
+Qed.
